@@ -1392,11 +1392,12 @@ class Harness:
         all_roles = list(roles) + [f"arg:{k}" for k in sorted(kwargs)]
         before = [snap(a) for a in all_objs]
         twin = None
-        if check_det and not any(s in name.lower() for s in RANDOM_NAMES):
-            try:
-                twin = copy.deepcopy((list(args), dict(kwargs)))
-            except Exception:
-                twin = None
+        try:
+            twin = copy.deepcopy((list(args), dict(kwargs)))          # the inputs as they were: determinism re-run and replay
+        except Exception:
+            twin = None
+        self.last_inputs = twin
+        check_det = check_det and not any(s in name.lower() for s in RANDOM_NAMES)
         ok, res = self.guarded(f, args, kwargs)
         after = [snap(a) for a in all_objs]
         sig = (key, tuple(type(a).__name__ + _shape(a) for a in all_objs), ok)
@@ -1413,8 +1414,8 @@ class Harness:
                 continue          # the argument IS (or shares its list with) the receiver of a documented mutator: X.append(X)
             d = diff(a, b) or ''
             self.report_mutation(key, role, d, kind, owner, name, args, kwargs, config, ok, res)
-        if ok and twin is not None:
-            ok2, res2 = self.guarded(f, twin[0], twin[1])
+        if ok and twin is not None and check_det:
+            ok2, res2 = self.guarded(f, copy.deepcopy(twin[0]), copy.deepcopy(twin[1]))
             ctx.count('determinism_checks')
             same = ok2 and (snap(res) == snap(res2) or same_value(res, res2))
             if ok2 and same and snap(res) != snap(res2):
@@ -1442,8 +1443,10 @@ class Harness:
         ctx.corr['disagreements'] += 0 if self.static_rejected else 1
         ctx.fail(k, f"{key} modified its {role}: {d}" + (f" [configuration {config}]" if config else ''),
                  {'callable': key, 'kind': kind, 'role': role, 'difference': d, 'configuration': config,
-                  'args_repr': [srepr(a, 400) for a in args], 'kwargs_repr': {k_: srepr(v, 200) for k_, v in kwargs.items()},
-                  'args_pickle_hex': _try_pickle((list(args), kwargs)),
+                  'inputs_before_call': ([srepr(a, 400) for a in self.last_inputs[0]] + [f"{k_}={srepr(v, 200)}" for k_, v in self.last_inputs[1].items()])
+                  if getattr(self, 'last_inputs', None) else None,
+                  'inputs_before_call_pickle_hex': _try_pickle(self.last_inputs) if getattr(self, 'last_inputs', None) else None,
+                  'args_after_call': [srepr(a, 400) for a in args], 'kwargs_after_call': {k_: srepr(v, 200) for k_, v in kwargs.items()},
                   'outcome': 'returned' if ok else f'raised {type(res).__name__}',
                   'analyser': ('accepted every function it saw: translator gap (correspondence failure)' if not self.static_rejected
                                else 'rejected: ' + ', '.join(sorted(self.static_rejected)))})
